@@ -29,6 +29,19 @@ func SiteName(site int) string {
 //go:norace
 func LibSteps() uint64 { return verifsim.Steps }
 
+// SitesHit lists the yield sites passed so far in this process.
+//
+//go:norace
+func SitesHit() []int {
+	var out []int
+	for i := 1; i < len(verifsim.SiteTable) && i < len(verifsim.Hit); i++ {
+		if verifsim.Hit[i] {
+			out = append(out, i)
+		}
+	}
+	return out
+}
+
 // NumSites is the number of yield sites in the instrumented copy.
 func NumSites() int { return len(verifsim.SiteTable) - 1 }
 
